@@ -33,3 +33,24 @@ PROPS["C05"] = {
     "assumptions": ["Go slices dst/src are either identical or disjoint (partial overlap is outside the cipher.Block contract)"],
     "not_proved": [],
 }
+
+PROPS["C04"] = {
+    "modules": ["Gmsm.Props.C04"],
+    "theorems": [
+        "Props.C04.consts_ok", "Props.C04.rotl_go", "Props.C04.update1_eq_CF", "Props.C04.write_write",
+        "Props.C04.sum_nil_spec", "Props.C04.sm3Sum_spec", "Props.C04.sum_pure", "Props.C04.sum_prefix",
+        "Props.C04.hist_refines", "Props.C04.hist_refines_init", "Props.C04.hash_length",
+        "Props.C04.pad_whole_blocks", "Props.C04.sumOld_mutates", "Props.C04.sumOld_drops_prefix",
+    ],
+    "gen_items": ["sm3."],
+    "gen_obligations": ["Gen.SM3.iv/updateConsts/update2Consts regenerated from sm3/sm3.go and re-proved equal to the standard's IV and T_j"],
+    "level": "proof",
+    "claim": "Lean 4 theorems for every message, every chunking and every Write/Sum/Reset history: the streaming object refines 'SM3 of the bytes written since the last Reset' (invariant by induction over operations), Sum is pure and returns prefix||digest, the Go rotate idiom is rotate-left for all shift counts, the padded message is always a whole number of blocks. HMAC-SM3 and PBKDF2-SM3 from the standard library over sm3.New are compared with RFC 2104 / RFC 8018 specs in Lean by the correspondence run.",
+    "note": "Trusted: Lean kernel; Spec.SM3 transcribes GM/T 0004 (validated on the standard's two examples and the empty string); Model.SM3 shares the round structure with the spec (parameterised by the rotate idiom) and is tied to sm3.go by differential runs over histories; crypto/hmac and x/crypto/pbkdf2 are stdlib code, exercised not proved.",
+    "trusted_base": [
+        "Spec.SM3 / Spec.HMAC are transcriptions of GM/T 0004-2012, RFC 2104, RFC 8018",
+        "Model.SM3 (hand-written mirror of sm3.go) is tied to the code by the sm3hist correspondence (all lengths 0..1500 quick / 0..8192 thorough, partitions into <= 8 writes, op histories <= 9 ops, prefixes with and without spare capacity)",
+    ],
+    "assumptions": ["message length < 2^61 bytes (the 64-bit bit counter wraps exactly as the standard's length field does)"],
+    "not_proved": ["hmac_eq / pbkdf2_eq as Lean theorems about a transcription of crypto/hmac (T2): covered by correspondence only"],
+}
